@@ -25,8 +25,11 @@ def digestAcct (a : Account) : String :=
   let ub := ",".intercalate ((a.unbonds.foldr insertBy []).map (fun u => s!"{u.1}:{u.2.1}@{u.2.2}"))
   s!"{a.balance} {a.stake} [{us}] {showVotes a.delegs} {showVotes a.bonds} [{ub}]"
 
-def digest (w : World) (ok : Bool) : String :=
-  (if ok then "done" else "fail") ++ s!" h={w.height}" ++
+def okStr (oks : List Bool) : String :=
+  if oks.isEmpty then "done" else ",".intercalate (oks.map (fun ok => if ok then "done" else "fail"))
+
+def digest (w : World) (oks : List Bool) : String :=
+  okStr oks ++ s!" h={w.height}" ++
   String.join (w.accts.map (fun a => " | " ++ digestAcct a)) ++
   s!" | TS={w.totalStake} TD={w.totalDeleg} TB={w.totalBond}"
 
@@ -38,13 +41,15 @@ structure St where
   w : World := {}
   ready : Bool := false
 
-def runTx (s : St) (tx : Tx) : St × String :=
-  let (w', ok) := block s.w tx
-  ({ s with w := w' }, digest w' ok)
+def runTxs (s : St) (txs : List Tx) : St × String :=
+  let (w', oks) := block s.w txs
+  ({ s with w := w' }, digest w' oks)
+
+def runTx (s : St) (tx : Tx) : St × String := runTxs s [tx]
 
 def idle : Nat → World → World
   | 0, w => w
-  | n + 1, w => idle n (block w Tx.none).1
+  | n + 1, w => idle n (block w []).1
 
 def step (s : St) (toks : List String) : St × String :=
   match toks with
@@ -53,7 +58,7 @@ def step (s : St) (toks : List String) : St × String :=
     match h.toInt?, lock.toInt?, slot.toNat?, ubp.toInt?, ts.toInt?, td.toInt?, tb.toInt? with
     | some h, some lock, some slot, some ubp, some ts, some td, some tb =>
       ({ w := { height := h, lock := lock, slotMax := slot, unbondPeriod := ubp, totalStake := ts, totalDeleg := td,
-                totalBond := tb, nPreps := 7 }, ready := true }, "ok")
+                totalBond := tb, registered := fun k => decide (k < 7), active := fun k => decide (k < 7) }, ready := true }, "ok")
     | _, _, _, _, _, _, _ => (s, "bad-op")
   | ["acct", i, bal, stake, ds, bs] =>
     if !s.ready then (s, "bad-op") else
@@ -67,13 +72,19 @@ def step (s : St) (toks : List String) : St × String :=
     match n.toNat? with
     | some n => if n > 1000 then (s, "bad-op") else
       let w' := idle n s.w
-      ({ s with w := w' }, digest w' true)
+      ({ s with w := w' }, digest w' [])
     | none => (s, "bad-op")
   | ["stake", i, v] =>
     if !s.ready then (s, "bad-op") else
     match i.toNat?, v.toInt? with
     | some i, some v => if i ≥ s.w.accts.length then (s, "bad-op") else runTx s (Tx.stake i v)
     | _, _ => (s, "bad-op")
+  | ["stake2", i, v1, v2] =>
+    if !s.ready then (s, "bad-op") else
+    match i.toNat?, v1.toInt?, v2.toInt? with
+    | some i, some v1, some v2 =>
+      if i ≥ s.w.accts.length then (s, "bad-op") else runTxs s [Tx.stake i v1, Tx.stake i v2]
+    | _, _, _ => (s, "bad-op")
   | ["deleg", i, vs] =>
     if !s.ready then (s, "bad-op") else
     match i.toNat?, parseVotes vs with
